@@ -204,6 +204,36 @@ func ruleLegacyFoldServer(c *Ctx) {
 		} else {
 			c.R.Violate("R-NEG", p.Pos(as), f.Name, construct, "the legacy pair is stored into VersionedPlugins even when no legacy plugin set is configured: the plugin then serves a spurious version (0 by default) with a nil plugin set, which a host without a common real version negotiates instead of failing", nil)
 		}
+		// ... and whenever one exists: from the edge on which the legacy set was
+		// found non-nil no path goes on to the function's exit without the store
+		// (a second condition - "unless the version is 0", "unless versioned sets
+		// exist" - takes a legacy version the plugin really serves off the list)
+		mm := m
+		isSetEdge := func(e *Edge) bool {
+			at, ok := edgeAtom(info, e)
+			if !ok || at.Kind != "nil" || at.Op != token.NEQ {
+				return false
+			}
+			return SelField(info, at.X) == plF || (local != nil && identObj(info, at.X) == types.Object(local))
+		}
+		skipped := false
+		for _, x := range g.Nodes {
+			for _, e := range x.Succs {
+				if !isSetEdge(e) || !g.Dominates(x, mm) {
+					continue
+				}
+				seen := p.FeasibleReach(f, []*Node{e.To}, func(y *Node) bool { return y == mm }, nil)
+				if seen[g.Exit] {
+					skipped = true
+				}
+			}
+		}
+		construct2 := "legacy ProtocolVersion/Plugins registered whenever a legacy set exists (plugin side)"
+		if skipped {
+			c.R.Violate("R-NEG", p.Pos(as), f.Name, construct2, "with a legacy plugin set configured there is a way past this store: a further condition decides whether the legacy version is served at all, so a plugin whose legacy version is the only one in common with the host (version 0 next to newer versioned sets) no longer offers it", nil)
+		} else {
+			c.R.Hold("R-NEG", p.Pos(as), f.Name, construct2, "from the non-nil edge of the legacy set every path to the exit passes the store", true)
+		}
 	}
 	if !found {
 		c.R.Undecided("R-NEG", f.Name, "legacy fold", "no store VersionedPlugins[v] = <legacy Plugins> found")
@@ -455,6 +485,54 @@ func ruleMainConnOwners(c *Ctx) {
 		c.R.Undecided("R-CONN/main", "", "instance-floor", fmt.Sprintf("only %d connection sites to Client.address found, 3 expected (newRPCClient, Client.dialer, newGRPCClient's use of it)", n))
 	} else if !bad {
 		c.R.Hold("R-CONN/main", "-", "", "connections to the plugin's main address", fmt.Sprintf("%d sites, all inside newRPCClient, newGRPCClient or Client.dialer", n), true)
+	}
+}
+
+// ruleMainDialOptionsOnly: ClientConfig.GRPCDialOptions configures the main
+// connection - credentials, dialers and interceptors chosen for the plugin's
+// main server. It is read in exactly one way: spread into the dialGRPCConn
+// call of newGRPCClient. Stored in the broker and applied to brokered dials,
+// a credential or dialer option in it points every brokered connection at the
+// wrong server or the wrong security.
+func ruleMainDialOptionsOnly(c *Ctx) {
+	p := c.P
+	fv := p.FieldObj(modPath, "ClientConfig", "GRPCDialOptions")
+	if fv == nil {
+		c.R.Undecided("R-SIB/dialopts", "", "ClientConfig.GRPCDialOptions", "field not found")
+		return
+	}
+	n, bad := 0, false
+	for _, f := range p.Funcs {
+		if !notTesting(p, f) {
+			continue
+		}
+		info := f.Pkg.TypesInfo
+		walkNoLit(f.Body, func(x ast.Node) bool {
+			se, ok := x.(*ast.SelectorExpr)
+			if !ok || SelField(info, se) != fv {
+				return true
+			}
+			n++
+			okUse := false
+			if call, isCall := p.Parent(se).(*ast.CallExpr); isCall && p.CalleeName(f, call) == modPath+".dialGRPCConn" && call.Ellipsis.IsValid() && len(call.Args) > 0 && ast.Unparen(call.Args[len(call.Args)-1]) == ast.Expr(se) {
+				root := f
+				for root.Parent != nil {
+					root = root.Parent
+				}
+				okUse = root.Name == "newGRPCClient"
+			}
+			construct := "ClientConfig.GRPCDialOptions reaches the main connection only"
+			if okUse {
+				c.R.Hold("R-SIB/dialopts", p.Pos(se), f.Name, construct, "spread into the dialGRPCConn call of newGRPCClient", true)
+			} else {
+				bad = true
+				c.R.Violate("R-SIB/dialopts", p.Pos(se), f.Name, construct, "the options configured for the main connection are read here for something else (kept in the broker, applied to brokered dials): a credential, authority or dialer option among them sends a connection dialled for a broker id to the wrong server, or makes it speak TLS to a plaintext brokered server", nil)
+			}
+			return true
+		})
+	}
+	if n == 0 && !bad {
+		c.R.Undecided("R-SIB/dialopts", "", "ClientConfig.GRPCDialOptions reaches the main connection only", "the field is never read")
 	}
 }
 
